@@ -96,12 +96,36 @@ def translate_sock_copy(msrc):
     return var, args[2], mm.group(1), bound
 
 
+STD = {"STDIN_FILENO": 0, "STDOUT_FILENO": 1, "STDERR_FILENO": 2, "0": 0, "1": 1, "2": 2}
+
+
+def translate_std_fds(msrc):
+    """-> (does main() begin by making descriptors 0-2 open?, the descriptors daemonize_fini dup2()s /dev/null onto)"""
+    main = re.sub(r"/\*.*?\*/", "", func_body(msrc, "main"), flags=re.S)
+    main = re.sub(r"^#.*$", "", main, flags=re.M)
+    calls = re.findall(r"\b([a-z_]\w*)\s*\(", main)
+    first = next((c for c in calls if c not in ("sizeof",)), None)
+    sanitizes = False
+    if first == "sanitize_std_fds":
+        body = re.sub(r"/\*.*?\*/", "", func_body(msrc, "sanitize_std_fds"), flags=re.S)
+        sanitizes = bool(re.search(r"do\s*\{\s*fd\s*=\s*open\s*\(\s*\"/dev/null\"\s*,\s*O_RDWR\s*\)\s*;\s*\}\s*while\s*\(\s*"
+                                   r"\(\s*fd\s*>=\s*0\s*\)\s*&&\s*\(\s*fd\s*<=\s*STDERR_FILENO\s*\)\s*\)\s*;", body)) \
+            and bool(re.search(r"if\s*\(\s*fd\s*>\s*STDERR_FILENO\s*\)\s*\{\s*\(void\)\s*close\s*\(\s*fd\s*\)", body))
+    fini = re.sub(r"/\*.*?\*/", "", func_body(msrc, "daemonize_fini"), flags=re.S)
+    dups = re.findall(r"dup2\s*\(\s*dev_null\s*,\s*(\w+)\s*\)", fini)
+    if any(d not in STD for d in dups):
+        raise ValueError("daemonize_fini: dup2 onto %s" % dups)
+    return sanitizes, [STD[d] for d in dups]
+
+
 def gen(api):
     R = api.REPO
     extra = [os.path.join(R, "src/libcommon/str.c"), os.path.join(R, "src/libmissing/strlcpy.c"),
              os.path.join(R, "src/libmissing/strlcat.c")]
     try:
-        var, size, op, bound = translate_sock_copy(open(os.path.join(R, "src/munged/munged.c")).read())
+        msrc = open(os.path.join(R, "src/munged/munged.c")).read()
+        var, size, op, bound = translate_sock_copy(msrc)
+        sanitizes, dups = translate_std_fds(msrc)
     except (ValueError, OSError) as e:
         raise api.GenError("start: " + str(e))
     tmp = tempfile.mkdtemp(prefix="verif-startgen-")
@@ -117,4 +141,8 @@ def gen(api):
             "Definition sock_len_refuses (n : N) : bool := %s.\n" % (op, " ".join(bound.split()).replace("(*", "( *").replace("*)", "* )"), OPS[op]))
     seed_extra = [os.path.join(R, "src/libcommon/fd.c")]
     out += api.run_probe("start_seed_probe.c", extra_srcs=seed_extra, libs=["-lcrypto"])
+    out += ("(* munged.c, translated from the text: main() first makes descriptors 0-2 open (sanitize_std_fds: open /dev/null\n"
+            "   until the descriptor is > 2, close the last one); daemonize_fini dup2()s /dev/null onto these descriptors *)\n"
+            "Definition main_sanitizes_std_fds : bool := %s.\nDefinition fini_dup2_targets : list nat := [%s].\n"
+            % ("true" if sanitizes else "false", "; ".join("%d%%nat" % d for d in dups)))
     return api.write_gen("GenStart.v", out)
